@@ -101,4 +101,61 @@ theorem genDNSFilterMessage_synthetic (c : Conf) (q : Query) (res : Result)
       · cases hm : c.mode <;>
           simp [h1, h2, h3, hm, reply, msgNODATA, genSOA, isLocalNs, modeRcode, rcSuccess]
 
+/-- Outside default mode, and for non-address queries, the rule addresses play no role. -/
+theorem genDNSFilterMessage_synthetic_nil (c : Conf) (q : Query) (res : Result)
+    (h : c.mode ≠ .default ∨ (q.qtype ≠ tA ∧ q.qtype ≠ tAAAA)) :
+    syntheticOK c q [] (genDNSFilterMessage c q res) = true := by
+  rcases q with ⟨qn, qt⟩
+  unfold syntheticOK genDNSFilterMessage
+  by_cases h1 : qt = tA
+  · subst h1
+    cases hm : c.mode <;> simp [hm] at h <;>
+      simp [hm, genForBlockingMode, responseCustomIP, responseNullIP, responseWithIPs, answersV4,
+        reply, msgNXDOMAIN, genSOA, isLocalNs, addrAnswers, eraseAll, RR.erase, RData.erase, ansA, IP.erase,
+        tA, tAAAA, tHTTPS, rcSuccess, rcNXDomain, rcRefused, ip4Zero]
+    all_goals simp [tA, tAAAA] at h
+  · by_cases h2 : qt = tAAAA
+    · subst h2
+      cases hm : c.mode <;> simp [hm] at h <;>
+        simp [hm, genForBlockingMode, responseCustomIP, responseNullIP, responseWithIPs,
+          reply, msgNXDOMAIN, genSOA, isLocalNs, addrAnswers, eraseAll, RR.erase, RData.erase, ansAAAA, IP.erase,
+          tA, tAAAA, tHTTPS, rcSuccess, rcNXDomain, rcRefused, ip6Zero]
+      all_goals simp [tA, tAAAA] at h
+    · by_cases h3 : qt = tHTTPS
+      · subst h3
+        cases hm : c.mode <;> cases hemp : (dedupIPs res.ips []).isEmpty <;>
+          simp [hm, hemp, genForBlockingMode, responseCustomIP, responseNullIP, responseWithIPs, reply,
+            msgNXDOMAIN, genSOA, isLocalNs, modeRcode, tA, tAAAA, tHTTPS, rcSuccess, rcNXDomain,
+            rcRefused]
+      · cases hm : c.mode <;>
+          simp [h1, h2, h3, hm, reply, msgNODATA, genSOA, isLocalNs, modeRcode, rcSuccess]
+
+/-- QUIRK: default mode, address query, rule addresses all of the other family
+⇒ an empty NOERROR response. -/
+theorem genDNSFilterMessage_cross_family (c : Conf) (q : Query) (res : Result)
+    (hm : c.mode = .default) (hne : res.ips.isEmpty = false)
+    (h : (q.qtype = tA ∧ ∀ ip ∈ res.ips, ip.v6 = true) ∨ (q.qtype = tAAAA ∧ ∀ ip ∈ res.ips, ip.v6 = false)) :
+    genDNSFilterMessage c q res = reply q rcSuccess := by
+  rcases q with ⟨qn, qt⟩
+  have hd : (dedupIPs res.ips []).isEmpty = false := by rw [dedupIPs_isEmpty]; exact hne
+  rcases h with ⟨hq, hall⟩ | ⟨hq, hall⟩
+  · simp only at hq; subst hq
+    have hnot : (dedupIPs res.ips []).all (fun ip => !ip.v6) = false := by
+      cases hl : dedupIPs res.ips [] with
+      | nil => rw [hl] at hd; simp at hd
+      | cons x xs =>
+        have hx : x ∈ dedupIPs res.ips [] := by rw [hl]; exact List.mem_cons_self
+        rcases dedupIPs_mem _ _ x hx with h | h
+        · simp [hall x h]
+        · simp at h
+    simp [genDNSFilterMessage, genForBlockingMode, hm, hd, responseWithIPs, answersV4, hnot, reply, tA, tAAAA, tHTTPS]
+  · simp only at hq; subst hq
+    have hflt : (dedupIPs res.ips []).filter (fun ip => ip.v6) = [] := by
+      apply List.filter_eq_nil_iff.mpr
+      intro x hx
+      rcases dedupIPs_mem _ _ x hx with h | h
+      · simp [hall x h]
+      · simp at h
+    simp [genDNSFilterMessage, genForBlockingMode, hm, hd, responseWithIPs, hflt, reply, tA, tAAAA, tHTTPS]
+
 end AGH.Filter
